@@ -611,7 +611,7 @@ def gen(tier, cmax, cmax_heavy, full, cmax_heavy_d3=6):
   for tag, frame in (('dict', "{'a': s_, 'b': s_}"), ('list', '[s_, s_]'), ('tuple', '(s_, s_)'), ('nested', "{'a': [s_], 'b': s_}")):
     for fam in ('iter', 'apply'):
       extra, call, _ = FAMILIES[fam] if fam in FAMILIES else (['v'], 'fam_iter(t, v)', False)
-      A(F(f'ob_shared_{fam}_{tag}', _args(3, 4, extra), f'1 <= c0 <= 6 and 0 <= c1 <= {cmax} and 0 <= c2 <= {cmax}', f"""
+      A(F(f'ob_shared_{fam}_{tag}', _args(3, 4, extra), f'1 <= c0 <= 6 and 0 <= c1 <= {cmax if full else 4} and 0 <= c2 <= {cmax if full else 4}', f"""
       t = (lambda s_: {frame})({T2})
       return {call}"""))
   A(F('ob_empty_roots', 'v: int', 'True', 'return fam_empty_roots(v)'))
